@@ -15,11 +15,14 @@
 #include "verif_post.h"
 #include "types_base.c"
 #include "sig_builder.h"
+#ifndef ON_EXT
+#define ON_EXT 0         /* 0: rules on the signature's calendar chain, 1 / 2: rule of the user publication / publications file policy on the buffered extender chain */
+#endif
+#if ON_EXT == 2
+#define C04_WITH_PUBFILE 1
+#endif
 #define C04_WITH_EXT 1
 #include "c04_builder.h"
-#ifndef ON_EXT
-#define ON_EXT 0         /* 0: rules on the signature's calendar chain, 1: rules on the buffered extender chain */
-#endif
 #ifndef BUFFERED
 #define BUFFERED 1
 #endif
@@ -71,7 +74,15 @@ void harness(void) {
 	}
 #endif
 	sb_result_init(&r);
+#if ON_EXT == 2
+	c04_build_pubfile(ctx);
+	int suitable = 0;
+	for (unsigned i = 0; i < C04_NPUB; i++) if (C4.pf[i].time >= SB.ch[0].aggrTime) suitable = 1;
+	res = KSI_VerificationRule_PublicationsFileExtendedCalendarChainHashAlgorithmDeprecatedAtPubTime(&sb_vc, &r);
+	if (!suitable) { CHECK(IS_ERR(res, r), "C04.Hdepr publications file variant without suitable publication: error status and NA"); } else
+#else
 	res = KSI_VerificationRule_UserProvidedPublicationExtendedCalendarChainHashAlgorithmDeprecatedAtPubTime(&sb_vc, &r);
+#endif
 	if (!BUFFERED) CHECK(IS_ERR(res, r), "C04.Hdepr extended-chain rule without buffered chain: error status and NA");
 	else if (depr) CHECK(res == KSI_OK && r.resultCode == KSI_VER_RES_NA, "C04.Hdepr extender chain with a deprecated algorithm in a left link at publication time is inconclusive (NA)");
 	else CHECK(IS(res, r, KSI_VER_RES_OK, KSI_VER_ERR_NONE), "C04.Hdepr extender chain without deprecated algorithm: OK");
